@@ -1,6 +1,6 @@
 """C04 - trust anchors enforced for attestation certificate chains."""
 import json
-from harness import authcat, fw, impl, authsim, regsim, regcat, regrun, oracle
+from harness import realclock, authcat, fw, impl, authsim, regsim, regcat, regrun, oracle
 
 TRUSTED = [
     "Coq 8.16.1 kernel; C04 theorems: which anchors are handed to the chain validator per format (isolation), that an accepted x5c registration went through it, pass-through only with no anchors",
@@ -124,6 +124,7 @@ def run(tier, seed):
             if ok != exp:
                 chk.violation(f"real clock, TZ={tz}: chain whose leaf is {what} {'accepted' if ok else 'rejected'}", f"real-clock-tz {what} TZ={tz}", {"entry": "validate_certificate_chain", "TZ": tz, "leaf": what, "accepted": ok})
             chk.seen(("real-clock", tz, what))
+        realclock.remarkable_dates(chk, tz)
     if saved_tz is None:
         os.environ.pop("TZ", None)
     else:
